@@ -56,7 +56,8 @@ CLAIMED.update({
              "non-END decision is fresh (stale ones are cleared first); END is terminal. Tied to /repo by exact call-sequence correspondence and "
              "an oracle over the implementation's own NodeStart/RouteDecision events.",
         design_ref="DESIGN.md section 5 C03",
-        note="The exactly-the-selected-branches corollary for acyclic graphs is checked by the oracle (exact-branches rule), not proved.",
+        note="Run level: C03_closed_gate_first (a node behind a closed-by-default gate is never scheduled before the gate has completed an execution). "
+             "The exactly-the-selected-branches corollary for acyclic graphs is checked by the oracle (exact-branches rule), not proved.",
         technique="Coq proof (characterisation of get_ready_nodes / stale-decision clearing) + event-stream oracle",
     ),
     "C04": dict(
